@@ -207,6 +207,7 @@ func syncFacts(repo string, w *strings.Builder) error {
 		{"l1infoProcessor", "l1infotreesync/processor.go"},
 		{"gerProcessor", "lastgersync/processor.go"},
 		{"evmDriver", "sync/evmdriver.go"},
+		{"dbTx", "db/tx.go"},
 	} {
 		xs, err := errToNil(repo, f.file)
 		if err != nil {
@@ -224,6 +225,46 @@ func syncFacts(repo string, w *strings.Builder) error {
 			return err
 		}
 		fmt.Fprintf(w, "/-- %s: what the log handlers store as an event's position inside its block -/\ndef blockPosExprs_%s : List String := %s\n", f.file, f.name, leanStrList(xs))
+	}
+	// the transaction wrapper's Commit and Rollback, whole (they are a few lines): a commit that did not happen must be an error
+	{
+		fset, af, err := parseOne(repo, "db/tx.go")
+		if err != nil {
+			return err
+		}
+		for _, fn := range []string{"Commit", "Rollback"} {
+			body := ""
+			if fd := findFunc(af, "Tx", fn); fd != nil {
+				body = nodeStr(fset, fd.Body)
+			}
+			fmt.Fprintf(w, "/-- db/tx.go: body of `Tx.%s` (whitespace-normalised) -/\ndef txBody_%s : String := %q\n", fn, fn, body)
+		}
+	}
+	// what makes a store declare itself inconsistent (halt): the conditions of the `if`s that set the flag
+	for _, f := range []struct{ name, file string }{
+		{"bridge", "bridgesync/processor.go"},
+		{"l1info", "l1infotreesync/processor.go"},
+	} {
+		fset, af, err := parseOne(repo, f.file)
+		if err != nil {
+			return err
+		}
+		var conds []string
+		if fd := findFunc(af, "processor", "ProcessBlock"); fd != nil {
+			ast.Inspect(fd.Body, func(x ast.Node) bool {
+				is, ok := x.(*ast.IfStmt)
+				if !ok {
+					return true
+				}
+				for _, st := range is.Body.List {
+					if as, ok := st.(*ast.AssignStmt); ok && len(as.Lhs) == 1 && strings.HasSuffix(nodeStr(fset, as.Lhs[0]), ".halted") && nodeStr(fset, as.Rhs[0]) == "true" {
+						conds = append(conds, nodeStr(fset, is.Cond))
+					}
+				}
+				return true
+			})
+		}
+		fmt.Fprintf(w, "/-- %s ProcessBlock: the conditions under which the processor halts -/\ndef haltConds_%s : List String := %s\n", f.file, f.name, leanStrList(conds))
 	}
 	{
 		_, af, err := parseOne(repo, "sync/evmdownloader.go")
